@@ -220,6 +220,14 @@ pub fn run(ctx: &mut Ctx) {
             let (l, r) = mk(&ls, &rs, &root_key);
             run_case(ctx, &format!("{role}:named-pair"), &Case { name: format!("{n1}+{n2}"), leaf: l, anchors: vec![(r, purpose)], keys: keys.clone() });
         }
+        // an anchor whose key is NOT a P-256 key (a P-384 root): a leaf naming it (issuer name, authority key identifier) cannot be
+        // verified under it and is not anchored, whoever signed it
+        { let point: Vec<u8> = std::iter::once(4u8).chain((0..96).map(|i| (i * 5 + 1) as u8)).collect();
+          let (r, ski) = world::with_p384_key(&base_root, &point, &root_key);
+          let mut ls = base_leaf.clone(); for e in ls.exts.iter_mut() { if e.oid == world::OID_AKI { *e = world::ext_aki(&ski); } }
+          for (signer_name, signer) in [("signed-by-itself", &leaf_key), ("signed-by-the-p256-root-key", &root_key), ("signed-by-another-key", &other_key)] {
+              let l = world::build_cert(&ls, &leaf_key, signer);
+              run_case(ctx, &format!("{role}:named-pair"), &Case { name: format!("anchor-with-p384-key+leaf-{signer_name}"), leaf: l, anchors: vec![(r.clone(), purpose)], keys: keys.clone() }); } }
         // registries: purposes mixed, several candidates (first one deviating), none
         let (l, good) = mk(&base_leaf, &base_root, &root_key);
         let wrong_purpose = if matches!(purpose, TrustPurpose::Iaca) { TrustPurpose::ReaderCa } else { TrustPurpose::Iaca };
